@@ -352,12 +352,17 @@ fn run_files(cfg: &Cfg) -> Outcome {
         91,
         RunLimits { cases: n, wall: Duration::from_secs(if cfg.thorough() { 600 } else { 60 }) },
         |l: &mut Local, rng: &mut Rng, idx: u64| {
-            let ds = gen_dataset(rng, &DsOpts::default());
+            // one case in four is a *tiny* file (short UIDs, at most one small element): without its
+            // preamble it is shorter than the 132 bytes a preamble + magic code would occupy
+            let tiny = idx % 4 == 3;
+            let mut ds = gen_dataset(rng, &DsOpts::default());
+            if tiny { ds.truncate(rng.usize(2)); }
             let ti = rng.usize(4);
             let mut b = FileMetaTableBuilder::new()
                 .transfer_syntax(uids[ti])
-                .media_storage_sop_class_uid(uid(rng))
-                .media_storage_sop_instance_uid(uid(rng));
+                .media_storage_sop_class_uid(if tiny { format!("1.{}", rng.usize(99)) } else { uid(rng) })
+                .media_storage_sop_instance_uid(if tiny { format!("2.{}", rng.usize(999)) } else { uid(rng) });
+            if tiny { b = b.implementation_class_uid("1.2"); }
             if rng.bool() { b = b.implementation_version_name(text(rng, 16)); }
             if rng.bool() { b = b.source_application_entity_title(text(rng, 16)); }
             let replay = json!({"seed": cfg.seed, "stream": 91, "case": idx, "leg": "files", "dataset": ds_json(&ds)});
@@ -374,17 +379,25 @@ fn run_files(cfg: &Cfg) -> Outcome {
             if on_disk != file {
                 l.violation("file|write_to_file-vs-write_all", format!("write_to_file produced {} bytes, write_all {}", on_disk.len(), file.len()), replay.clone());
             }
-            l.class(format!("file|ts{}|n{}", ti, ds.len().min(10)));
             let stripped = &file[128..];
+            l.class(format!("file|ts{}|n{}|stripped-len{}", ti, ds.len().min(10), if stripped.len() < 132 { "<132" } else { ">=132" }));
+            // the same file without preamble, on disk (read by path)
+            let path_np = format!("{}/c{}-np.dcm", dir, idx);
+            if std::fs::write(&path_np, stripped).is_err() { return; }
             let reads: Vec<(&str, Result<dicom_object::DefaultDicomObject, String>)> = vec![
                 ("open_file", dicom_object::open_file(&path).map_err(|e| err_chain(&e))),
                 ("from_reader", dicom_object::from_reader(&file[..]).map_err(|e| err_chain(&e))),
+                ("open_file/no-preamble", dicom_object::open_file(&path_np).map_err(|e| err_chain(&e))),
+                ("options-auto/open_file/no-preamble", OpenFileOptions::new().read_preamble(ReadPreamble::Auto).open_file(&path_np).map_err(|e| err_chain(&e))),
+                ("options-never/open_file/no-preamble", OpenFileOptions::new().read_preamble(ReadPreamble::Never).open_file(&path_np).map_err(|e| err_chain(&e))),
+                ("options-always/open_file/preamble", OpenFileOptions::new().read_preamble(ReadPreamble::Always).open_file(&path).map_err(|e| err_chain(&e))),
                 ("from_reader/no-preamble", dicom_object::from_reader(stripped).map_err(|e| err_chain(&e))),
                 ("options-always/preamble", OpenFileOptions::new().read_preamble(ReadPreamble::Always).from_reader(&file[..]).map_err(|e| err_chain(&e))),
                 ("options-never/no-preamble", OpenFileOptions::new().read_preamble(ReadPreamble::Never).from_reader(stripped).map_err(|e| err_chain(&e))),
                 ("options-auto/no-preamble", OpenFileOptions::new().read_preamble(ReadPreamble::Auto).from_reader(stripped).map_err(|e| err_chain(&e))),
             ];
             let _ = std::fs::remove_file(&path);
+            let _ = std::fs::remove_file(&path_np);
             let reference = match &reads[1].1 {
                 Ok(o) => o,
                 Err(e) => { l.violation("file|from_reader|error", e.clone(), replay); return; }
@@ -408,7 +421,7 @@ fn run_files(cfg: &Cfg) -> Outcome {
         },
     );
     let _ = std::fs::remove_dir_all(&dir);
-    let mut o = Outcome::new(local, "G-DS objects with random meta tables written with write_all / write_to_file in 4 transfer syntaxes; read back by path, from a byte source, and from the same bytes without the 128-byte preamble (default, Always, Never, Auto preamble options); all readings must yield the same meta table and data set");
+    let mut o = Outcome::new(local, "G-DS objects with random meta tables written with write_all / write_to_file in 4 transfer syntaxes; read back by path and from a byte source, with and without the 128-byte preamble (default, Always, Never, Auto preamble options; every fourth file is tiny: shorter than 132 bytes without its preamble); all readings must yield the same meta table and data set");
     o.min_evaluations = 1000;
     o.min_classes = 10;
     o
